@@ -123,7 +123,7 @@ def check(cx):
 
     # ---- C19.3 one comparator everywhere ------------------------------------------------------------------
     r3 = cx.rule("C19.3", "SIB: ORDER BY, DISTINCT, GROUP BY, IN-lists, joins and the B+tree key comparator resolve to the "
-                 "DataType/DataTypeRef impls of PartialOrd/PartialEq/Hash (one notion of order and equality); the key comparator compares whole keys", floor=6)
+                 "DataType/DataTypeRef impls of PartialOrd/PartialEq/Hash (one notion of order and equality); the key comparator compares whole keys; the sort comparator ties two NULL keys", floor=7)
     ORD = {"<types::DataType as std::cmp::PartialOrd>::partial_cmp", "<types::DataTypeRef<'_> as std::cmp::PartialOrd>::partial_cmp"}
     EQH = {"<types::DataType as std::cmp::PartialEq>::eq", "<types::DataType as std::hash::Hash>::hash"}
     users = [
@@ -157,6 +157,31 @@ def check(cx):
                "key comparators reassemble overflow cells completely (%d functions)" % len(cmp_fns),
                "the tree's key comparator reassembles an overflow cell with a size bound (%s): a stored key longer than the probe is cut in the "
                "middle, the comparison fails or orders wrongly, and the outcome depends on page size and min_keys (where the cell spills)" % ", ".join(bounded))
+
+    # ORDER BY: two NULL keys tie (and the next key decides); the comparator must look at both values before placing a NULL
+    fsort = [g for g in p.fns.values() if g.name == "compare_keys" and "ops::sort::" in g.id and not g.root]
+    if not fsort:
+        cx.bad(r3, "sort:null-ties", "", "the sort comparator (compare_keys in runtime::ops::sort) was not found")
+    else:
+        g = fsort[0]
+        tests = []       # (block, null-arm target, scrutinee root local)
+        for bi, adt, m, oth, src in enum_switches(p, g):
+            if adt == "types::DataType" and "Null" in m:
+                tests.append((bi, m["Null"], src[0]))
+        for c in g.calls():
+            if c.callee.endswith("::is_null") and c.term["to"] is not None:
+                tb = g.blocks[c.term["to"]]["term"]
+                if tb["t"] == "switch" and op_local(tb["o"]) == c.dst[0]:
+                    tests.append((c.term["to"], tb["otherwise"], op_local(c.args[0])))
+        first = [t for t in tests if all(g.dominates(t[0], u[0]) for u in tests)]
+        good = False
+        if first:
+            t0 = first[0]
+            reg = dominated(g, t0[1])
+            good = any(u[0] in reg and u[2] != t0[2] for u in tests)
+        cx.verdict(good, r3, "sort:null-ties", g.where(), "on a NULL key the other key is tested for NULL too (NULL, NULL ties)",
+                   "the sort comparator places a NULL key without looking at the other key: two NULLs compare Greater (or Less) in both "
+                   "directions, the comparator is not antisymmetric and never reaches the later sort keys for those rows")
 
     # ---- C19.4 float -> integer casts --------------------------------------------------------------------------
     r4 = cx.rule("C19.4", "FLOW: for every `impl TypeCast<IntN|UIntN> for FloatM` the float-to-integer conversion reachable from "
